@@ -1839,3 +1839,119 @@ def k_str_index_length(E, tier):
     if len(cases) != 2:
         rec.add("both ASCII case functions found (%d)" % len(cases), {"verdict": "inconclusive", "per_solver": {}, "time_s": 0})
     return rec
+
+
+def k_for_bounds(E, tier):
+    """C17: `@for`: the loop runs ValueRange::new(from, to, inclusive, from's unit); `to` takes its bare magnitude
+    when either side is unitless and is otherwise converted to from's unit with Numeric::as_unitset (error when
+    that is impossible); both bounds go through Number::into_integer."""
+    f = E.find(name_re=r"^srcrange::<impl at .*>::evaluate$")
+    rec = Rec("SrcRange::evaluate (@for bounds)", f, E)
+    ctx = E.ctx()
+
+    def ev(name):
+        def h(ex, st, c, a, d):
+            ok = st.fork()
+            err = st.fork()
+            m = re.search(r"Result<(.*), (?:error::)?(?:Error|Invalid)>$", (d or "").strip())
+            ty = m.group(1) if m else "?"
+            val = ctx.fresh_value(ty, "val." + name + "#%d" % len(st.events))
+            e = sym.Event(name, a, val, len(ok.pc))
+            e.rargs = [ex.resolve_ref(st, x) for x in a]
+            ok.events.append(e)
+            return [(ok, sym.Agg(d, "Ok", {"0": val}, 0)), (err, sym.Agg(d, "Err", {"0": sym.Opaque("Error", "e", ctx)}, 1))]
+        return h
+
+    def m_new(ex, st, c, a, d):
+        o = sym.Opaque("ValueRange", "range", ctx)
+        st.events.append(sym.Event("ValueRange::new", a, o, len(st.pc)))
+        return o
+
+    me = sym.Opaque("SrcRange", "self", ctx)
+    ex = sym.Executor(ctx, models=[(r"^SrcValue::eval_map::<", ev("eval_map")), (r"^ValueRange::new$", m_new)] + BASE_MODELS, feasibility=E.feasibility(ctx))
+    paths = [p for p in ex.run(f, [sym.Ref("val", me), sym.Opaque("ScopeRef", "scope", ctx)]) if p.status == "return"]
+    rec.paths += len(paths)
+    okp = [p for p in paths if isinstance(p.ret, sym.Agg) and p.ret.variant == "Ok"]
+    for p in okp:
+        em = [e for e in p.events if e.callee == "eval_map"]
+        nw = [e for e in p.events if e.callee == "ValueRange::new"]
+        if len(em) != 2 or len(nw) != 1:
+            rec.add("evaluate: two bound evaluations and one ValueRange::new (shape not recognised)", {"verdict": "inconclusive", "per_solver": {}, "time_s": 0})
+            continue
+        first, second = em
+        src_ok = first.rargs[0] is me.children.get("0") and second.rargs[0] is me.children.get("1")
+        clo = second.args[2]
+        cap_ok = isinstance(clo, sym.Agg) and isinstance(clo.fields.get("unit"), sym.Ref)
+        fr = first.result
+        a0, a1, a2, a3 = nw[0].args[:4]
+        wiring = (a0 is fr.children.get("0") and a1 is second.result and a2 is me.children.get("2") and a3 is fr.children.get("1"))
+        rec.add("evaluate: `from` is evaluated first, `to` second with from's unit captured",
+                {"verdict": "holds" if (src_ok and cap_ok) else "violated", "per_solver": {"structural": "identity"}, "time_s": 0})
+        rec.add("evaluate: the range is (from, to, the source's inclusive flag, from's unit)",
+                {"verdict": "holds" if wiring else "violated", "per_solver": {"structural": "identity"}, "time_s": 0})
+    if not okp:
+        rec.add("evaluate has an Ok path", {"verdict": "inconclusive", "per_solver": {}, "time_s": 0})
+    # the `to` closure
+    g = E.find(name_re=r"^srcrange::<impl at .*>::evaluate::\{closure#1\}$")
+    ctx2 = E.ctx()
+    v = sym.Opaque("css::value::Value", "v", ctx2)
+    env = sym.Opaque("closure-env", "env", ctx2)
+    num = sym.Opaque("value::numeric::Numeric", "num", ctx2)
+
+    def m_numeric_value(ex, st, c, a, d):
+        return sym.Agg(d, "Ok", {"0": num}, 0)
+
+    def m_map_err(ex, st, c, a, d):
+        x = a[0]
+        if isinstance(x, sym.Agg):
+            return sym.Agg(d, x.variant, x.fields, x.disc)
+        o = sym.Opaque(d, "mapped", ctx2)
+        o.alias_disc = x
+        o.children["Ok.0"] = x.child("Ok.0", "i64")
+        return o
+
+    def m_ii(ex, st, c, a, d):
+        o = sym.Opaque(d, "into_integer", ctx2)
+        e = sym.Event("into_integer", a, o, len(st.pc))
+        st.events.append(e)
+        return o
+
+    ex2 = sym.Executor(ctx2, models=[(r"^css::value::Value::numeric_value$", m_numeric_value), (r"Result::<.*>::map_err::<", m_map_err),
+                                     (r"^Number::into_integer$", m_ii)] + BASE_MODELS, feasibility=E.feasibility(ctx2))
+    p2 = [p for p in ex2.run(g, [sym.Ref("val", env), v]) if p.status == "return"]
+    rec.paths += len(p2)
+    kinds = set()
+    for i, p in enumerate(p2):
+        evs = [e for e in p.events if e.callee != "drop"]
+        names = [re.sub(r"::<.*", "", e.callee) for e in evs]
+        ii = [e for e in evs if e.callee == "into_integer"]
+        conv = [e for e in evs if e.callee == "Numeric::as_unitset"]
+        isn = [e for e in evs if e.callee == "UnitSet::is_none"]
+        nou = [e for e in evs if e.callee == "Numeric::is_no_unit"]
+        is_ok = isinstance(p.ret, sym.Agg) and p.ret.variant == "Ok"
+        unit = env.children.get("0")
+
+        def nm(x):
+            return getattr(x, "name", None)
+
+        if is_ok and len(ii) == 1 and not conv:
+            ok = ii[0].args[0] is num.children.get("0") and len(isn) == 1 and isn[0].rargs[0] is not None
+            kinds.add("bare")
+            rec.add("to path %d: a unitless side: the bare magnitude of `to` is used" % i,
+                    {"verdict": "holds" if ok else "violated", "per_solver": {"structural": "identity"}, "time_s": 0})
+        elif is_ok and len(ii) == 1 and len(conv) == 1:
+            scaled = conv[0].result.children.get("Some.0")
+            ok = (conv[0].rargs[0] is num and ii[0].args[0] is scaled and len(isn) == 1 and len(nou) == 1 and nou[0].rargs[0] is num)
+            kinds.add("converted")
+            rec.add("to path %d: `to` is converted to from's unit with as_unitset before it becomes an integer" % i,
+                    {"verdict": "holds" if ok else "violated", "per_solver": {"structural": "identity"}, "time_s": 0})
+        elif not is_ok and len(conv) == 1 and not ii:
+            kinds.add("incompatible")
+            rec.add("to path %d: an inconvertible unit on `to` is an error" % i, {"verdict": "holds", "per_solver": {"structural": "shape"}, "time_s": 0})
+        elif not is_ok:
+            kinds.add("error")
+        else:
+            rec.add("to path %d: unexpected shape %s" % (i, names), {"verdict": "inconclusive", "per_solver": {}, "time_s": 0})
+    if not {"bare", "converted", "incompatible"} <= kinds:
+        rec.add("to: bare, converted and incompatible cases all present (%s)" % sorted(kinds), {"verdict": "inconclusive", "per_solver": {}, "time_s": 0})
+    return rec
